@@ -53,6 +53,31 @@ static void run_request(const std::string& ep, long a, long b, long c, long d, l
 		const Vector v(a, 1.0);
 		sink = v[uidx(b)];
 	}
+	else if(ep == "VecIdxAfter")
+	{
+		Vector v(b, 1.0);
+		if(a == 0)
+			v = Vector(c, 2.0);
+		else if(a == 1)
+			v.Resize((unsigned)c);
+		else
+			v.Assign((unsigned)c, 3.0);
+		sink = v[uidx(d)];
+		v[uidx(d)] = 1.0;
+	}
+	else if(ep == "MatIdxAfter")
+	{
+		Matrix M(b, 2, 1.0);
+		if(a == 0)
+			M = Matrix(c, 2, 2.0);
+		else if(a == 1)
+			M.Resize((int)c, 2);
+		else if(a == 2)
+			M.Assign((int)c, 2, 3.0);
+		else
+			M.Delete_Row(0);
+		sink = M[uidx(d)][0];
+	}
 	else if(ep == "VecBin")
 	{
 		Vector v = mv(b), w = mv(c);
